@@ -15,14 +15,16 @@ from ..sim import net
 from ..sim.appsim import AppSim, exc_site
 
 PROPERTY_ID = 'C18'
-RULE = ('Histories on one SvsInst started on appv2.NDNApp (recording face, virtual time, drawn timer jitter): receive(vector) built '
+RULE = ('Histories on one SvsInst (last_used_seq_num 0..3, 0..2 publications before start()) started on appv2.NDNApp (recording face, '
+        'virtual time, drawn timer jitter): receive(vector) built '
         'relative to the current local vector - newer / older / incomparable / equal / unknown nodes / own entry above own sequence / '
         'malformed (entry without seq, without node id, truncated TLV, wrong component type, empty) - delivered as a signed sync '
         'Interest through packet reception or directly to the handler; publish(); advance(dt) with dt in {0, 1 ms, just before / '
         'exactly at / just after next_sync_timing}. Oracle: model local := entry-wise max(local, v) for every accepted v; never '
         'decreases; over-claiming vector changes nothing; missing-data callback +1 iff the vector raised some entry; publish => own '
-        'seq+1 and a sync Interest carrying the full local vector before time advances; suppression periods read from the public '
-        '`state`: at their end a sync Interest is emitted iff some local entry exceeds the merge of the vectors heard in the period; '
+        'seq+1 and a sync Interest carrying the full local vector before time advances; a suppression period begins when the library '
+        'says so (public `state`; the property does not say when) and is then owned by the model (0.1..0.3 s unless a publication ends it): '
+        'at its end a sync Interest is emitted iff some local entry exceeds the merge of the vectors heard in the period; '
         'every emitted sync Interest carries exactly the current local vector; no exception escapes. Non-trivial = a suppression period '
         'with >=2 heard vectors, or a malformed / over-claiming vector; distinct key = abstract trace.')
 ASSUMPTIONS = [
